@@ -1,11 +1,11 @@
 """C13 - hand-optimised compressed-object decoder agrees with the declarative template"""
-from contracts import c13_native
+from contracts import c13_native, c13_contracts
 PID = "C13"
 META = {"level": "other", "explanation": "<filled in later by the framework owner>", "trusted_base": []}
 
 
 def register(reg):
-    pass
+    c13_contracts.register_p(reg, PID)
 
 
 BOUNDED = [c13_native.bounded_fast_vs_template]
